@@ -19,3 +19,12 @@ class CountField(models.IntegerField):
 
 class AmountField(models.IntegerField):
     pass
+
+
+class JSONField(models.TextField):
+    """a project's own field class that happens to share its name with one that django.db.models exports (a
+    legacy JSON field kept from before Django had one)"""
+
+
+class UUIDField(models.CharField):
+    pass
